@@ -20,10 +20,7 @@ import (
 	"github.com/ontio/ontology-crypto/keypair"
 	"github.com/ontio/ontology/account"
 	"github.com/ontio/ontology/common"
-	"github.com/ontio/ontology/common/config"
-	"github.com/ontio/ontology/common/log"
 	vconfig "github.com/ontio/ontology/consensus/vbft/config"
-	"github.com/ontio/ontology/core/genesis"
 	"github.com/ontio/ontology/core/signature"
 	"github.com/ontio/ontology/core/types"
 	"github.com/ontio/ontology/verifshim/vh"
@@ -43,56 +40,6 @@ type c32Fix struct {
 	syms    []string // signature symbols
 	sig     [][]byte // bytes of each symbol
 	truth   [][]bool // truth[sym][member]: measured with signature.Verify over the header hash
-}
-
-func c32Hex128() string { return strings.Repeat("ab", 64) }
-
-// c32Config installs a VBFT genesis configuration with n consensus peers
-// (deterministic keys vkeys.P256(0..n-1)) and fault bound c.
-func c32Config(n, c int, members []*account.Account) {
-	log.InitLog(log.MaxLevelLog, log.Stdout) // silence
-	var peers []*config.VBFTPeerStakeInfo
-	for i, a := range members {
-		peers = append(peers, &config.VBFTPeerStakeInfo{Index: uint32(i + 1), PeerPubkey: vconfig.PubkeyID(a.PublicKey),
-			Address: a.Address.ToBase58(), InitPos: uint64(10000 + i)})
-	}
-	config.DefConfig.Genesis.ConsensusType = "vbft"
-	config.DefConfig.Genesis.VBFT = &config.VBFTConfig{N: uint32(n), C: uint32(c), K: uint32(n), L: uint32(16 * n),
-		BlockMsgDelay: 10000, HashMsgDelay: 10000, PeerHandshakeTimeout: 10, MaxBlockChangeView: 1000, MinInitStake: 10000,
-		AdminOntID: "did:ont:AMAx993nE6NEqZjwBssUfopxnnvTdob9ij", VrfValue: c32Hex128(), VrfProof: c32Hex128(), Peers: peers}
-	config.DefConfig.P2PNode.NetworkId = 3
-	config.DefConfig.P2PNode.EVMChainId = 12345
-}
-
-func c32Members(n int) []*account.Account {
-	var m []*account.Account
-	for i := 0; i < n; i++ {
-		m = append(m, vAcct(i))
-	}
-	return m
-}
-
-// c32OpenLedger creates a fresh VBFT ledger holding only the genesis block.
-func c32OpenLedger(n, c int, dir string) (*LedgerStoreImp, *types.Block, error) {
-	members := c32Members(n)
-	c32Config(n, c, members)
-	var bks []keypair.PublicKey
-	for _, a := range members {
-		bks = append(bks, a.PublicKey)
-	}
-	gen, err := genesis.BuildGenesisBlock(bks, config.DefConfig.Genesis)
-	if err != nil {
-		return nil, nil, err
-	}
-	ls, err := NewLedgerStore(dir, 0)
-	if err != nil {
-		return nil, nil, err
-	}
-	if err := ls.InitLedgerStoreWithGenesisBlock(gen, bks); err != nil {
-		ls.Close()
-		return nil, nil, err
-	}
-	return ls, gen, nil
 }
 
 func c32Open(r *vh.Run, n, c int) *c32Fix {
@@ -376,6 +323,10 @@ func (f *c32Fix) eval(r *vh.Run, seam string, bk, sg []int, confirmed map[string
 	if valid >= f.c+1 {
 		cl := "accepted:valid>=C+1"
 		r.Class(cl)
+		if !confirmed["ok:"+seam] {
+			confirmed["ok:"+seam] = true
+			r.Sample(map[string]interface{}{"n": f.n, "c": f.c, "seam": seam, "bookkeepers": append([]int{}, bk...), "sigs": f.symNames(sg), "outcome": cl})
+		}
 		if seam == "AddBlock" && !confirmed[cl] {
 			confirmed[cl] = true
 			r.Need(f.addBlockReal(r, bk, sg), "header passing the AddBlock probe was not committed by a real AddBlock: bk=%v sigs=%v", bk, f.symNames(sg))
@@ -384,6 +335,10 @@ func (f *c32Fix) eval(r *vh.Run, seam string, bk, sg []int, confirmed map[string
 		return
 	}
 	r.Class("accepted:valid<C+1")
+	if !confirmed["sample:"+seam] {
+		confirmed["sample:"+seam] = true
+		r.Sample(map[string]interface{}{"n": f.n, "c": f.c, "seam": seam, "bookkeepers": append([]int{}, bk...), "sigs": f.symNames(sg), "outcome": "accepted with fewer than C+1 valid member signatures"})
+	}
 	rel := ">="
 	if listed < f.c+1 {
 		rel = "<"
